@@ -157,7 +157,8 @@ func c07ErrClass(err error) string {
 	case strings.Contains(err.Error(), "locked") || strings.Contains(err.Error(), "busy"):
 		return "locked"
 	default:
-		return "err:" + err.Error()
+		// error texts may print a pointer (gorm: "unsupported data type: 0xc000…"): addresses are not part of the result
+		return "err:" + c07ReHex.ReplaceAllString(err.Error(), "0x?")
 	}
 }
 
@@ -213,6 +214,7 @@ type c07RaceWorker struct {
 	ps    []uint // own plain ids
 	zs    []uint // own zoo ids
 	ro    bool   // read-only program (several connections)
+	hmodel bool  // the shared handle carries Model(&C07Zoo{})
 	nohold bool  // never keep a connection over several statements (see c07_derive.go, environment rule)
 	only  string
 	kinds map[string]bool
@@ -712,7 +714,7 @@ func c07RunRaceProg(p c07RaceProg, serial bool) c07RaceRun {
 	}
 	if !p.Cold {
 		// warm: every operation kind, serially, on a reserved id block, before the goroutines start
-		w := &c07RaceWorker{g: 90, base: 900000, rng: rand.New(rand.NewSource(p.Seed + 5)), kinds: map[string]bool{}, ro: conns > 1, only: p.Only, nohold: nohold}
+		w := &c07RaceWorker{g: 90, base: 900000, rng: rand.New(rand.NewSource(p.Seed + 5)), kinds: map[string]bool{}, ro: conns > 1, only: p.Only, nohold: nohold, hmodel: p.Handle == "model"}
 		if p.Family == "zoo" {
 			c07ZooSeed(setup, 89)
 		}
@@ -740,7 +742,7 @@ func c07RunRaceProg(p c07RaceProg, serial bool) c07RaceRun {
 	workers := make([]*c07RaceWorker, p.G)
 	outs := make([][]string, p.G)
 	for g := 0; g < p.G; g++ {
-		workers[g] = &c07RaceWorker{g: g, base: uint(g+1) * 10000, rng: rand.New(rand.NewSource(p.Seed*131 + int64(g))), kinds: map[string]bool{}, first: true, ro: conns > 1, only: p.Only, nohold: nohold}
+		workers[g] = &c07RaceWorker{g: g, base: uint(g+1) * 10000, rng: rand.New(rand.NewSource(p.Seed*131 + int64(g))), kinds: map[string]bool{}, first: true, ro: conns > 1, only: p.Only, nohold: nohold, hmodel: p.Handle == "model"}
 	}
 	ident := c07Identify(shared, handles)
 	// "stampede" (half of the cold programs): every goroutine's very first action is Statement.Parse of every model type of
@@ -1209,7 +1211,7 @@ func c07GenRaceProg(rng *rand.Rand) c07RaceProg {
 	case "zoo":
 		p.Handle = []string{"db", "db", "session", "ctx", "idwhere", "model", "prepsession", "debug"}[rng.Intn(8)]
 		p.Cold = rng.Intn(4) != 0 // cold = empty per-field pools
-		if rng.Intn(2) == 0 {     // read-only on several connections: scans really overlap
+		if rng.Intn(2) == 0 || (p.Handle == "model" && rng.Intn(2) == 0) { // read-only on several connections: scans really overlap
 			p.Conns = []int{2, 4, 8}[rng.Intn(3)]
 		}
 	default:
@@ -1422,6 +1424,8 @@ func c07RaceParent(r *Result, rng *rand.Rand, tier string) {
 		// Scan / Rows / Row / Pluck / Count finishers overlapping on the bare shared handle (no Config copy anywhere)
 		c07RaceProg{Seed: rng.Int63n(1 << 30), G: 8, Cold: false, Family: "zoo", Handle: "db", Ops: 6, Only: "5,6,7,8,9,10,0"},
 		c07RaceProg{Seed: rng.Int63n(1 << 30), G: 4, Cold: true, Family: "zoo", Handle: "idwhere", Ops: 8, Conns: 4, Only: "5,6,8,10,15,1"},
+		// finishers called directly on the shared handle (a handle that carries a Model): the receiver is the shared *gorm.DB itself
+		c07RaceProg{Seed: rng.Int63n(1 << 30), G: 4, Cold: rng.Intn(2) == 0, Family: "zoo", Handle: "model", Ops: 5, Conns: 4, Only: "30,30,9,10,5"},
 	)
 	if dev := os.Getenv("C07_DEV_PROGS"); dev != "" { // development aid: run exactly these programs
 		progs = nil
